@@ -33,6 +33,7 @@ def numeric(ctx, db, path, rules_, weighted=False, pair=False, accessor_args=Non
             efy = N.mean_fields(scen, ("mean_y",))
             N.r_shift(ctx, db, e, scen, efx, axis_params=(0,), label="X")
             N.r_shift(ctx, db, e, scen, efy, axis_params=(1,), label="Y")
+            N.r_shift(ctx, db, e, scen, efx | efy, axis_params=(0, 1), label="X and Y jointly")
         else:
             N.r_shift(ctx, db, e, scen, ef, axis_params=(0,), label="X")
     if laws:
@@ -270,8 +271,9 @@ def c15(ctx):
     R.r_count(ctx, db, e, "B", expect_merge=False, check_add=False)
     Q.r_count_small(ctx, db, e, roles)
     # extreme markers and the count follow the specified step
-    Q.r_p2_step(ctx, db, e, roles, only={("q", 0), ("q", 4), ("n", 4), ("dm", 0), ("dm", 1), ("dm", 2), ("dm", 3), ("dm", 4)},
-                rule="R-P2", label=":extremes")
+    # extreme markers capture min/max, the count is exact, `dm` (hence p()) has no writer, and the
+    # acceptance test keeps interior heights between their neighbours: all follow from the specified step
+    Q.r_p2_step(ctx, db, e, roles, rule="R-P2", label=":bookkeeping")
     Q.r_p2_init(ctx, db, e, roles)
     R.r_sentinel(ctx, db, e, "Quantile", ctor_args=quantile_ctor)
 
@@ -305,10 +307,15 @@ def c06(ctx):
     for e, ln, consts in hist_types(ctx, db):
         n += 1
         H.r_find_add(ctx, db, e, ln, consts)
+        # find() is decided for sorted edges: both constructors must establish that invariant
+        H.r_const_width_monotone(ctx, db, e, ln, consts)
+        if ln <= 3:
+            H.r_from_ranges(ctx, db, e, ln, consts)
     dba, hs = hist_const_types(ctx)
     for e, ln, consts in hs:
         n += 1
         H.r_find_add(ctx, dba, e, ln, consts)
+        H.r_const_width_monotone(ctx, dba, e, ln, consts)
     ctx.floor("histogram instantiations analysed (find/add)", n, 6)
     ctx.notes.append("decided for strictly increasing edges under the documented contract of [T]::binary_search_by; with repeated edges the bin "
                      "returned for a sample equal to the repeated edge depends on which equal index the standard library returns (unspecified)")
@@ -322,11 +329,13 @@ def c12(ctx):
         if ln <= 4 or ctx.tier == "thorough":
             n += H.r_from_ranges(ctx, db, e, ln, consts)
         H.r_const_width(ctx, db, e, ln, consts)
+        H.r_const_width_monotone(ctx, db, e, ln, consts)
     dba, hs = hist_const_types(ctx)
     for e, ln, consts in hs:
         if ln <= 4:
             n += H.r_from_ranges(ctx, dba, e, ln, consts)
         H.r_const_width(ctx, dba, e, ln, consts)
+        H.r_const_width_monotone(ctx, dba, e, ln, consts)
     ctx.floor("abstract paths of from_ranges compared with the C12 table", n, 60)
 
 
@@ -486,6 +495,9 @@ def c10(ctx):
         for k in ((3, 5) if ctx.tier == "quick" else (2, 3, 4, 5, 6, 7)):
             NL.stream_definitions(ctx, db, e, k, defs, key="L0", min_k={"sample_variance": 2, "sample_skewness": 3, "sample_excess_kurtosis": 4})
         R.r_sentinel(ctx, db, e, "Moments", N=N_, only=("sample_variance", "sample_skewness", "sample_excess_kurtosis"))
+        for k in (2, 3):
+            sc = N.est_scenarios(ctx, db, e, only=("sample_variance", "sample_skewness"), count_exact=k)
+            N.r_div(ctx, db, e, sc, tag="n=%d:" % k)
     for t, kind in fam[:3]:
         e = Est(db, t)
         if e.exists():
@@ -603,6 +615,7 @@ def c17(ctx):
             N.r_convex(ctx, db, e, scen, N.mean_fields(scen, ("mean_y",)), axis_params=(1,), label="Y")
             N.r_shift(ctx, db, e, scen, N.mean_fields(scen, ("mean_x",)), axis_params=(0,), label="X")
             N.r_shift(ctx, db, e, scen, N.mean_fields(scen, ("mean_y",)), axis_params=(1,), label="Y")
+            N.r_shift(ctx, db, e, scen, N.mean_fields(scen, ("mean_x", "mean_y")), axis_params=(0, 1), label="X and Y jointly")
         else:
             N.r_convex(ctx, db, e, scen, N.mean_fields(scen), weighted=kw.get("weighted", False))
             N.r_shift(ctx, db, e, scen, N.mean_fields(scen))
